@@ -1,5 +1,6 @@
 """Executor shared by C10 and C11: concretise a lattice tree (optionally moved / renumbered / scaled), ask the real library for
 every morphometric, and report it in units of 1e-3 keyed by ORIGINAL node id (spec/Morph.tla, Judge_Morph.tla)."""
+from harness import lib
 import math, warnings
 import numpy as np
 
@@ -89,7 +90,7 @@ def observe_derived(c, rng):
     from swcgeom.transforms import RotateZ, Translate, Scale
     t0, order, _ = build(c, 1, rng)
     collect(c, t0, order, 1.0, 1, 0)
-    k = c["cid"] % 3
+    k = lib.vid(c) % 3
     t = t0
     if k != 1:
         t = RotateZ(math.pi / 2, center="origin")(t)
@@ -174,7 +175,7 @@ def collect(c, t, order, s, exact, renumbered):
 def observe_pop(c, rng):
     from swcgeom.core import Population
     from swcgeom.analysis.feature_extractor import extract_feature
-    trees = [build(tc, (k + c["cid"]) % 4, rng)[0] for k, tc in enumerate(c["trees"])]
+    trees = [build(tc, (k + lib.vid(c)) % 4, rng)[0] for k, tc in enumerate(c["trees"])]
     with warnings.catch_warnings():
         warnings.simplefilter("ignore")
         pop = Population(trees)
